@@ -1,4 +1,7 @@
+#[cfg(not(tablegen_lsp_verif))]
 use std::fs;
+#[cfg(tablegen_lsp_verif)]
+use crate::verif_hooks::fs;
 
 use async_lsp::lsp_types::Url;
 
